@@ -37,7 +37,7 @@ type QGen struct {
 	nfrag       int
 }
 
-var IllKinds = []string{"unknown-field", "leaf-with-selection", "composite-without-selection", "union-plain-field", "typename-with-selection"}
+var IllKinds = []string{"unknown-field", "leaf-with-selection", "composite-without-selection", "union-plain-field", "typename-with-selection", "typename-with-arguments"}
 
 func (g *QGen) isComposite(t TRef) bool {
 	d := g.D.Defs[t.NamedOf()]
@@ -82,7 +82,12 @@ func (g *QGen) SelSet(tn string, depth int) string {
 	r := g.R
 	var xs []string
 	if def.Kind == "union" {
-		if r.Chance(40) {
+		switch {
+		case g.inject("typename-with-selection"):
+			xs = append(xs, "__typename { name }")
+		case g.inject("typename-with-arguments"):
+			xs = append(xs, "__typename(x: true)")
+		case r.Chance(40):
 			xs = append(xs, "__typename")
 		}
 		for _, m := range def.Members {
@@ -107,6 +112,8 @@ func (g *QGen) SelSet(tn string, depth int) string {
 		case k < g.PTypename:
 			if g.inject("typename-with-selection") {
 				xs = append(xs, "__typename { x }")
+			} else if g.inject("typename-with-arguments") {
+				xs = append(xs, g.alias("__typename")+"__typename(first: 1)")
 			} else {
 				xs = append(xs, g.alias("__typename")+"__typename"+g.directive())
 			}
